@@ -1,14 +1,253 @@
 import Model.Util
 /-
-  Model/Bandit.lean — (stub) executable model; see DESIGN.md.  Core Lean only.
+  Model/Bandit.lean — executable model of the confidence matrix of
+  `agilerl.algorithms.neural_ucb_bandit.NeuralUCB` / `neural_ts_bandit.NeuralTS`.
+
+  * matrices are `List (List Rat)` (row major), vectors `List Rat`;
+  * `smUpdate` is the Sherman–Morrison step of `get_action`, associated exactly as the code writes it:
+      sigma_inv -= (sigma_inv @ v @ v.T @ sigma_inv) / (1 + v.T @ sigma_inv @ v)
+    i.e. numerator `((S v) vᵀ) S`, denominator `1 + (vᵀ S) v`;
+  * the gradient feature `v` (gradient of the chosen arm's output w.r.t. the parameters of the output
+    layer, divided by sqrt(out_features)) is an *input* of the model: the network is not modelled;
+  * `Agent` is the bookkeeping state `(output-layer numel, agent.numel, sigma_inv, history)` with the
+    operations of the library that touch it: `init_params` (also the mutation hook), `get_action`,
+    `learn`, `Mutations.mutation`, `clone`, `save_checkpoint`/`load`.
+
+  `Sem` is the semantics of `lamb` at initialisation (DESIGN D16):
+    `code`  : `sigma_inv₀ = lamb · I`   (what `init_params` does today)  — so Z₀ = I / lamb
+    `paper` : `sigma_inv₀ = I / lamb`   (Z₀ = lamb · I, NeuralUCB paper and the property text)
+-/
+namespace Bandit
+
+abbrev Vec := List Rat
+abbrev Mat := List (List Rat)
+
+def dot (a b : Vec) : Rat := (List.zipWith (· * ·) a b).sum
+
+/-- entry `(i, j)`, `0` outside -/
+def Mat.get (M : Mat) (i j : Nat) : Rat := (M.getD i []).getD j 0
+
+/-- column `j` of `M` -/
+def col (M : Mat) (j : Nat) : Vec := M.map (fun r => r.getD j 0)
+
+/-- `M @ v` -/
+def matVec (M : Mat) (v : Vec) : Vec := M.map (fun r => dot r v)
+
+/-- `v.T @ M` for a matrix with `n` columns -/
+def vecMat (n : Nat) (v : Vec) (M : Mat) : Vec := (List.range n).map (fun j => dot v (col M j))
+
+/-- `a @ b.T` (outer product) -/
+def outer (a b : Vec) : Mat := a.map (fun x => b.map (fun y => x * y))
+
+/-- `A @ B` where `B` has `n` columns -/
+def matMul (n : Nat) (A B : Mat) : Mat := A.map (fun r => vecMat n r B)
+
+def matZip (f : Rat → Rat → Rat) (A B : Mat) : Mat := List.zipWith (List.zipWith f) A B
+
+def scaledIdentity (n : Nat) (c : Rat) : Mat :=
+  (List.range n).map (fun i => (List.range n).map (fun j => if i = j then c else 0))
+
+def identity (n : Nat) : Mat := scaledIdentity n 1
+
+def WellShaped (n : Nat) (M : Mat) : Prop := M.length = n ∧ ∀ r ∈ M, r.length = n
+
+instance (n : Nat) (M : Mat) : Decidable (WellShaped n M) := by unfold WellShaped; infer_instance
+
+/-- `g.T @ S @ g` — the quantity under the square root of the exploration bonus -/
+def bonus (S : Mat) (g : Vec) : Rat := dot (vecMat S.length g S) g
+
+/-- denominator of the update, `1 + v.T @ S @ v` -/
+def smDenom (S : Mat) (v : Vec) : Rat := 1 + bonus S v
+
+/-- numerator of the update, `((S @ v) @ v.T) @ S` -/
+def smNumer (S : Mat) (v : Vec) : Mat := matMul S.length (outer (matVec S v) v) S
+
+/-- the Sherman–Morrison step of `get_action` -/
+def smUpdate (S : Mat) (v : Vec) : Mat :=
+  let d := smDenom S v
+  matZip (fun s x => s - x / d) S (smNumer S v)
+
+/-- `A + v vᵀ` -/
+def addOuter (A : Mat) (v : Vec) : Mat := matZip (· + ·) A (outer v v)
+
+inductive Sem where
+  | code    -- sigma_inv₀ = lamb · I
+  | paper   -- sigma_inv₀ = I / lamb
+deriving Repr, DecidableEq
+
+/-- `sigma_inv` right after `init_params` -/
+def sigma0 (sem : Sem) (lamb : Rat) (n : Nat) : Mat :=
+  match sem with
+  | .code => scaledIdentity n lamb
+  | .paper => scaledIdentity n lamb⁻¹
+
+/-- the regularisation matrix `Z₀` whose inverse `sigma0` is -/
+def z0 (sem : Sem) (lamb : Rat) (n : Nat) : Mat :=
+  match sem with
+  | .code => scaledIdentity n lamb⁻¹
+  | .paper => scaledIdentity n lamb
+
+/-- `Z₀ + Σ v vᵀ` over a history (oldest first) -/
+def gram (Z0 : Mat) (hist : List Vec) : Mat := hist.foldl addOuter Z0
+
+/-! ### the agent's bookkeeping -/
+
+structure Agent where
+  sem      : Sem
+  lamb     : Rat
+  /-- number of trainable parameters of the *current* output layer of `agent.actor` -/
+  outNumel : Nat
+  /-- `agent.numel` -/
+  numel    : Nat
+  /-- `agent.sigma_inv` -/
+  sigmaInv : Mat
+  /-- ghost: gradient features of the arms chosen since `sigma_inv` was last initialised -/
+  hist     : List Vec
+deriving Repr, DecidableEq
+
+/-- `init_params` (constructor and mutation hook): re-reads the output layer, resets the matrix -/
+def Agent.initParams (a : Agent) : Agent :=
+  { a with numel := a.outNumel, sigmaInv := sigma0 a.sem a.lamb a.outNumel, hist := [] }
+
+/-- `NeuralUCB(...)` / `NeuralTS(...)` with an output layer of `n` parameters -/
+def Agent.mk0 (sem : Sem) (lamb : Rat) (n : Nat) : Agent :=
+  Agent.initParams { sem := sem, lamb := lamb, outNumel := n, numel := 0, sigmaInv := [], hist := [] }
+
+/-- `get_action` can run: the gradient of the output layer (`g.length = outNumel` entries) fits the
+    `numel` columns the code allocates (`g[k] = torch.cat(...)` raises otherwise) -/
+def Agent.accepts (a : Agent) (g : Vec) : Bool := g.length = a.outNumel && a.outNumel = a.numel
+
+/-- the matrix part of `get_action` for the chosen feature `g`; unchanged when the code raises -/
+def Agent.update (a : Agent) (g : Vec) : Agent :=
+  if a.accepts g then { a with sigmaInv := smUpdate a.sigmaInv g, hist := a.hist ++ [g] } else a
+
+/-- `learn`: weights change, the matrix and all sizes stay -/
+def Agent.learn (a : Agent) : Agent := a
+
+/-- the raw effect of an architecture mutation on the network: a new output layer with `n'`
+    parameters (`n' = outNumel` for mutations that keep it) — *before* the hook has run -/
+def Agent.setArch (a : Agent) (n' : Nat) : Agent := { a with outNumel := n' }
+
+/-- `Mutations.mutation([agent])`: whatever the kind, the network is (possibly) rebuilt and the
+    mutation hook `init_params` runs last -/
+def Agent.mutate (a : Agent) (n' : Nat) : Agent := (a.setArch n').initParams
+
+/-- `clone()`: a fresh agent gets clones of the networks, the hook runs on it, then
+    `copy_attributes` copies `numel`, `sigma_inv` (and every other plain attribute) from the parent -/
+def Agent.clone (a : Agent) : Agent :=
+  let c := (Agent.mk0 a.sem a.lamb a.outNumel)
+  { c with numel := a.numel, sigmaInv := a.sigmaInv, hist := a.hist }
+
+/-- `save_checkpoint` + `load`: the network is rebuilt from its `init_dict`, the hook runs, the
+    saved attributes (`numel`, `sigma_inv`, …) are restored -/
+def Agent.reload (a : Agent) : Agent :=
+  let c := (Agent.mk0 a.sem a.lamb a.outNumel)
+  { c with numel := a.numel, sigmaInv := a.sigmaInv, hist := a.hist }
+
+inductive Op where
+  | update (g : Vec)
+  | learn
+  | mutate (n' : Nat)
+  | clone
+  | reload
+deriving Repr, DecidableEq
+
+def Agent.step (a : Agent) : Op → Agent
+  | .update g => a.update g
+  | .learn => a.learn
+  | .mutate n' => a.mutate n'
+  | .clone => a.clone
+  | .reload => a.reload
+
+def Agent.run (a : Agent) (ops : List Op) : Agent := ops.foldl Agent.step a
+
+/-- `Z₀ + Σ g gᵀ` since the last initialisation -/
+def Agent.gram (a : Agent) : Mat := Bandit.gram (z0 a.sem a.lamb a.numel) a.hist
+
+end Bandit
+
+/-! ### line protocol
+
+    bandit new <code|paper> <lamb> <n>      construct (→ ok | reject when lamb ≤ 0)
+    bandit update <g…>                      → ok | reject (size mismatch: the real code raises)
+                                              | singular (denominator 0; unreachable for lamb > 0)
+    bandit bonus <g…>                       → gᵀ S g as an exact rational | reject
+    bandit learn                            → ok
+    bandit arch <n'>                        raw architecture change, hook NOT run → ok
+    bandit hook                             init_params → ok
+    bandit mutate <n'>                      arch + hook → ok
+    bandit clone | bandit reload            → ok
+    bandit sizes                            → "<outNumel> <numel> <rows> <wellshaped 0/1>"
+    bandit count                            → number of updates since the last initialisation
+    bandit dump                             → all entries of sigma_inv, row major, exact
+    bandit fix <k>                          → ⌊entry · 2^k⌋ for all entries (fixed point, cheap to ship)
+    bandit check                            → "1" iff gram · sigma_inv = I and sigma_inv · gram = I exactly
+    bandit symm                             → "1" iff sigma_inv is exactly symmetric
 -/
 namespace Bandit
 open Util
 
 structure IOState where
-  dummy : Nat := 0
+  agent : Option Agent := none
+
+def parseSem? : String → Option Sem
+  | "code" => some .code
+  | "paper" => some .paper
+  | _ => none
+
+def isSymm (M : Mat) : Bool :=
+  (List.range M.length).all (fun i => (List.range M.length).all (fun j => M.get i j == M.get j i))
+
+def Agent.checkInverse (a : Agent) : Bool :=
+  let n := a.numel
+  matMul n a.gram a.sigmaInv == identity n && matMul n a.sigmaInv a.gram == identity n
 
 def step (s : IOState) : List String → IOState × String
+  | ["new", sem, lamb, n] =>
+    match parseSem? sem, parseRat? lamb, parseNat? n with
+    | some sem, some lamb, some n =>
+      if lamb ≤ 0 then (s, "reject")           -- `assert lamb > 0` in the constructor
+      else ({ s with agent := some (Agent.mk0 sem lamb n) }, "ok")
+    | _, _, _ => (s, "bad-op")
+  | op :: args =>
+    match s.agent with
+    | none => (s, "bad-op")
+    | some a =>
+      match op, args with
+      | "update", ws =>
+        match parseRats? ws with
+        | some g =>
+          if !a.accepts g then (s, "reject")
+          else if smDenom a.sigmaInv g = 0 then (s, "singular")
+          else ({ s with agent := some (a.update g) }, "ok")
+        | none => (s, "bad-op")
+      | "bonus", ws =>
+        match parseRats? ws with
+        | some g => if g.length = a.numel then (s, showRat (bonus a.sigmaInv g)) else (s, "reject")
+        | none => (s, "bad-op")
+      | "learn", [] => ({ s with agent := some a.learn }, "ok")
+      | "arch", [n] =>
+        match parseNat? n with
+        | some n => ({ s with agent := some (a.setArch n) }, "ok")
+        | none => (s, "bad-op")
+      | "hook", [] => ({ s with agent := some a.initParams }, "ok")
+      | "mutate", [n] =>
+        match parseNat? n with
+        | some n => ({ s with agent := some (a.mutate n) }, "ok")
+        | none => (s, "bad-op")
+      | "clone", [] => ({ s with agent := some a.clone }, "ok")
+      | "reload", [] => ({ s with agent := some a.reload }, "ok")
+      | "sizes", [] =>
+        (s, s!"{a.outNumel} {a.numel} {a.sigmaInv.length} {showBool (decide (WellShaped a.numel a.sigmaInv))}")
+      | "count", [] => (s, toString a.hist.length)
+      | "dump", [] => (s, showRats a.sigmaInv.flatten)
+      | "fix", [k] =>
+        match parseNat? k with
+        | some k => (s, showInts (a.sigmaInv.flatten.map (fun x => (x * ((2 ^ k : Nat) : Rat)).floor)))
+        | none => (s, "bad-op")
+      | "check", [] => (s, showBool a.checkInverse)
+      | "symm", [] => (s, showBool (isSymm a.sigmaInv))
+      | _, _ => (s, "bad-op")
   | _ => (s, "bad-op")
 
 end Bandit
